@@ -2,6 +2,7 @@
 #define HZ_MAIN
 #include "common.hpp"
 
+#include <map>
 #include <random>
 
 #include "libphysica/Integration.hpp"
@@ -109,13 +110,13 @@ std::string handle(const std::string& op, Args& a)
 		a.end();
 		return "ok";
 	}
-	if(op == "c13.int1" || op == "c13.fam1")
+	if(op == "c13.int1" || op == "c13.fam1" || op == "c13.asknownp" || op == "c13.asknown")
 	{
 		std::string m = a.tok();
 		int p		  = a.i64();
 		double x1 = a.dbl(), x2 = a.dbl();
 		std::function<double(double)> f;
-		if(op == "c13.int1")
+		if(op == "c13.int1" || op == "c13.asknownp")
 		{
 			auto t = terms(a);
 			f	   = [t](double x) { return eval(t, x, 1.0, 1.0); };
@@ -169,6 +170,91 @@ std::string handle(const std::string& op, Args& a)
 			for(int i = 0; i < dim; i++)
 				o << call(1u << i);
 			o << call((1u << dim) - 1);
+		});
+	}
+	if(op == "c13.nest")
+	{
+		// re-entrant use of the named front end: the integrand of Integrate(F,a,b,M1,p1) calls Integrate(g(x,.),lo(x),hi(x),M2,p2)
+		std::string m1 = a.tok();
+		int p1		   = a.i64();
+		std::string m2 = a.tok();
+		int p2		   = a.i64();
+		double x1 = a.dbl(), x2 = a.dbl(), l0 = a.dbl(), l1 = a.dbl(), h0 = a.dbl(), h1 = a.dbl();
+		auto t = terms(a);
+		a.end();
+		return run_forked([&](Out& o) {
+			// run 1: the nested computation, recording (x, F(x)) at every outer evaluation
+			std::map<double, double> seen;
+			std::vector<double> xs;
+			double v1 = Integrate([&](double x) {
+				double F = Integrate([&](double y) { return eval(t, x, y, 1.0); }, l0 + l1 * x, h0 + h1 * x, m2, p2);
+				seen[x] = F;
+				xs.push_back(x);
+				return F;
+			}, x1, x2, m1, p1);
+			// run 2: the outer method alone on the recorded integrand values (no inner integration takes place)
+			long long misses = 0, calls2 = 0;
+			double v2 = Integrate([&](double x) {
+				calls2++;
+				auto it = seen.find(x);
+				if(it == seen.end())
+				{
+					misses++;
+					return 0.0;
+				}
+				return it->second;
+			}, x1, x2, m1, p1);
+			double lo = INFINITY, hi = -INFINITY;
+			for(double x : xs)
+			{
+				lo = std::min(lo, x);
+				hi = std::max(hi, x);
+			}
+			o << v1 << v2 << (long long) xs.size() << calls2 << misses << lo << hi;
+		});
+	}
+	if(op == "c13.sphfirst")
+	{
+		// The vectors of the FIRST evaluations of the spherical overload in a fresh process (the integrand stops the
+		// integration after K evaluations by throwing), and the (r, cos theta, phi) of the first evaluations of the
+		// Cartesian overload with the same method and limits.
+		std::string m = a.tok();
+		int p		  = a.i64();
+		double r1 = a.dbl(), r2 = a.dbl(), c1 = a.dbl(), c2 = a.dbl(), f1 = a.dbl(), f2 = a.dbl();
+		a.end();
+		return run_forked([&](Out& o) {
+			const size_t K = 12;
+			struct Stop {};
+			std::vector<std::vector<double>> vecs, pts;
+			auto val = [](double r, double c, double ph) { return exp(-r) * (1.0 + c * c) * (2.0 + cos(ph)); };
+			try
+			{
+				(void) Integrate_3D([&](Vector v) {
+					std::vector<double> q = {v.Size() == 3 ? v[0] : NAN, v.Size() == 3 ? v[1] : NAN, v.Size() == 3 ? v[2] : NAN};
+					vecs.push_back(q);
+					if(vecs.size() >= K)
+						throw Stop();
+					double nrm = v.Norm();
+					return val(nrm, nrm > 0.0 ? v[2] / nrm : 0.0, atan2(v[1], v[0])) ;
+				}, r1, r2, c1, c2, f1, f2, m, p);
+			}
+			catch(const Stop&) {}
+			try
+			{
+				(void) Integrate_3D([&](double r, double c, double ph) {
+					pts.push_back({r, c, ph});
+					if(pts.size() >= K)
+						throw Stop();
+					return r * r * val(r, c, ph);
+				}, r1, r2, c1, c2, f1, f2, m, p);
+			}
+			catch(const Stop&) {}
+			o << vecs.size();
+			for(auto& q : vecs)
+				o << q[0] << q[1] << q[2];
+			o << pts.size();
+			for(auto& q : pts)
+				o << q[0] << q[1] << q[2];
 		});
 	}
 	if(op == "c13.seq")
@@ -307,10 +393,14 @@ std::string handle(const std::string& op, Args& a)
 					maxdim = 1.0;
 				double nrm = v.Norm();
 				double ct  = nrm > 0.0 ? v[2] / nrm : 0.0;
+				// azimuth modulo 2 pi (undefined on the polar axis)
 				double ph  = atan2(v[1], v[0]);
+				double pmid = 0.5 * (f1 + f2);
+				ph += 2.0 * M_PI * std::round((pmid - ph) / (2.0 * M_PI));	// the representative nearest to the middle of the phi range
 				r.see(0, nrm);
 				r.see(1, ct);
-				r.see(2, ph);
+				if(v[0] != 0.0 || v[1] != 0.0)
+					r.see(2, ph);
 				return eval(t, nrm, ct, ph);
 			};
 			double v = Integrate_3D(f, r1, r2, c1, c2, f1, f2, m, p);
@@ -322,12 +412,121 @@ std::string handle(const std::string& op, Args& a)
 				auto g = [&](double rr, double c, double ph) {
 					Vector rv = Spherical_Coordinates(rr, acos(c), ph);
 					double nrm = rv.Norm();
-					return rr * rr * eval(t, nrm, nrm > 0.0 ? rv[2] / nrm : 0.0, atan2(rv[1], rv[0]));
+					double ph2 = atan2(rv[1], rv[0]);
+					double pmid = 0.5 * (f1 + f2);
+					ph2 += 2.0 * M_PI * std::round((pmid - ph2) / (2.0 * M_PI));
+					return rr * rr * eval(t, nrm, nrm > 0.0 ? rv[2] / nrm : 0.0, ph2);
 				};
 				vn = Integrate_3D(g, r1, r2, c1, c2, f1, f2, m, p);
 			}
 			o << v << vn << maxdim;
 			r.out(o, 3);
+		});
+	}
+	if(op == "c13.sphrad")	 // radial exp / Gaussian integrand on the full sphere (default angular limits)
+	{
+		std::string m = a.tok();
+		int p		  = a.i64();
+		double r1 = a.dbl(), r2 = a.dbl();
+		int kind   = a.i64();
+		double par = a.dbl();
+		a.end();
+		return run_forked([&](Out& o) {
+			auto f = [&](Vector v) { double n = v.Norm(); return kind == 0 ? exp(-par * n) : exp(-n * n / (2.0 * par * par)); };
+			o << Integrate_3D(f, r1, r2, -1.0, 1.0, 0.0, 2.0 * M_PI, m, p);
+		});
+	}
+	if(op == "c13.default23")	 // defaults of Integrate_2D, the Cartesian Integrate_3D and the partial angular defaults
+	{
+		double x1 = a.dbl(), x2 = a.dbl(), y1 = a.dbl(), y2 = a.dbl(), z1 = a.dbl(), z2 = a.dbl();
+		a.end();
+		return run_forked([&](Out& o) {
+			auto f2 = [](double x, double y) { return 1.0 + x * y * y - 0.5 * y; };
+			auto f3 = [](double x, double y, double z) { return 1.0 + x + 2.0 * y * z + 3.0 * z * z * x; };
+			auto fv = [](Vector v) { double n = v.Norm(); return exp(-n) * (1.0 + v[2] / n); };
+			const std::string GL = "Gauss-Legendre";
+			o << Integrate_2D(f2, x1, x2, y1, y2) << Integrate_2D(f2, x1, x2, y1, y2, GL, 0) << Integrate_2D(f2, x1, x2, y1, y2, GL);
+			o << Integrate_3D(f3, x1, x2, y1, y2, z1, z2) << Integrate_3D(f3, x1, x2, y1, y2, z1, z2, GL, 0) << Integrate_3D(f3, x1, x2, y1, y2, z1, z2, GL);
+			double r1 = 0.5, r2 = 2.0, c1 = -0.25, c2 = 0.5, p1 = 0.5;
+			o << Integrate_3D(fv, r1, r2, c1) << Integrate_3D(fv, r1, r2, c1, 1.0, 0.0, 2.0 * M_PI, GL, 0);
+			o << Integrate_3D(fv, r1, r2, c1, c2) << Integrate_3D(fv, r1, r2, c1, c2, 0.0, 2.0 * M_PI, GL, 0);
+			o << Integrate_3D(fv, r1, r2, c1, c2, p1) << Integrate_3D(fv, r1, r2, c1, c2, p1, 2.0 * M_PI, GL, 0);
+		});
+	}
+	if(op == "c13.sweep")
+	{
+		// batch: N integrands of the property's families (the generator's own parameter ranges) through the named 1-D
+		// method, judged in the harness against closed forms in long double
+		std::string m = a.tok();
+		long long N	  = a.i64();
+		unsigned sd	  = a.u64();
+		a.end();
+		return run_forked([&](Out& o) {
+			std::mt19937_64 g(sd * 2654435761ull + 17);
+			auto U = [&](double lo, double hi) { return lo + (hi - lo) * ((g() >> 11) * (1.0 / 9007199254740992.0)); };
+			const bool trap	  = m == "Trapezoidal";
+			const double rel  = trap ? 1e-6 : 1e-9;
+			const long double eps = ldexpl(1.0L, -53);
+			long long nfail = 0;
+			std::vector<std::vector<double>> bad;
+			double worst = 0.0;
+			for(long long it = 0; it < N; it++)
+			{
+				double lo = U(-5.0, 4.5);
+				double hi = lo + U(0.3, 5.0 - lo > 0.3 ? std::min(5.0 - lo, 7.0) : 0.3);
+				double L  = hi - lo;
+				int fam_id = it % 3;
+				Fam f;
+				f.id = fam_id;
+				long double I, A;
+				if(fam_id == 0)
+				{
+					f.p0 = U(0.1, 2.0) / L;
+					f.p1 = 2.0 * M_PI * U(0.2, 2.0) / L;
+					f.p2 = U(0.0, 1.0) - f.p1 * lo;
+					long double la = f.p0, om = f.p1, ph = f.p2;
+					auto F = [&](long double x) { return expl(-la * x) * (om * sinl(om * x + ph) - la * cosl(om * x + ph)) / (la * la + om * om); };
+					I = F(hi) - F(lo);
+					A = 0.0L;
+					for(int k = 0; k < 400; k++)
+						A += fabsl((long double) f(lo + L * (k + 0.5) / 400.0)) * L / 400.0L;
+				}
+				else if(fam_id == 1)
+				{
+					f.p0 = U(0.5, 6.0) / (L * L);
+					f.p1 = U(lo, hi);
+					f.p2 = U(0.1, 1.0);
+					long double rt = sqrtl((long double) f.p0);
+					I = (atanl(rt * ((long double) hi - f.p1)) - atanl(rt * ((long double) lo - f.p1))) / rt + (long double) f.p2 * ((long double) hi - lo);
+					A = I;
+				}
+				else
+				{
+					f.p0 = U(lo, hi);
+					f.p1 = U(0.25, 1.0) * L;
+					f.p2 = U(0.1, 1.0);
+					long double sg = f.p1, s2 = sg * sqrtl(2.0L);
+					I = sg * sqrtl(acosl(-1.0L) / 2.0L) * (erfl(((long double) hi - f.p0) / s2) - erfl(((long double) lo - f.p0) / s2)) + (long double) f.p2 * ((long double) hi - lo);
+					A = I;
+				}
+				bool rev   = (it / 3) % 2;
+				double val = rev ? Integrate(f, hi, lo, m, 0) : Integrate(f, lo, hi, m, 0);
+				long double ref = rev ? -I : I;
+				long double tol = trap ? rel * A : rel * fabsl(I) + 256.0L * eps * A;
+				long double err = fabsl((long double) val - ref);
+				if(!(err <= tol))
+				{
+					nfail++;
+					if(bad.size() < 4)
+						bad.push_back({(double) f.id, f.p0, f.p1, f.p2, rev ? hi : lo, rev ? lo : hi, val, (double) ref, (double) (err / fabsl(I))});
+				}
+				if(tol > 0 && (double) (err / tol) > worst)
+					worst = (double) (err / tol);
+			}
+			o << N << nfail << worst << bad.size();
+			for(auto& b : bad)
+				for(double x : b)
+					o << x;
 		});
 	}
 	if(op == "c13.sphdefault")	 // default angular limits: the full sphere
